@@ -96,6 +96,7 @@ type kase struct {
 	fn   string // upper lower reverse substr replace position len like ~ ~*
 	strs []string
 	ints []int64
+	neg  bool // CLI leg only: the negated operator (NOT LIKE, !~, !~*) was run; its boolean is flipped back before judging
 }
 
 func (k kase) args() []octosql.Value {
@@ -135,8 +136,14 @@ func sqlLiteral(s string) string {
 func (k kase) sql() string {
 	switch k.fn {
 	case "like":
+		if k.neg {
+			return sqlLiteral(k.strs[0]) + " NOT LIKE " + sqlLiteral(k.strs[1])
+		}
 		return sqlLiteral(k.strs[0]) + " LIKE " + sqlLiteral(k.strs[1])
 	case "~", "~*":
+		if k.neg {
+			return sqlLiteral(k.strs[0]) + " !" + k.fn + " " + sqlLiteral(k.strs[1])
+		}
 		return sqlLiteral(k.strs[0]) + " " + k.fn + " " + sqlLiteral(k.strs[1])
 	case "substr":
 		parts := []string{sqlLiteral(k.strs[0])}
@@ -154,6 +161,9 @@ func (k kase) sql() string {
 
 // judge compares a result with the reference for the case.
 func judge(k kase, r result) verdict {
+	if k.neg && r.kind == "bool" {
+		r.b = !r.b
+	}
 	if r.kind == "panic" {
 		if k.fn == "substr" {
 			start := k.ints[0]
@@ -476,6 +486,24 @@ func min(a, b int) int {
 	return b
 }
 
+// probes: the witnesses recorded in findings.d/C12.json.
+var probes = []struct {
+	key string
+	k   kase
+}{
+	{"reverse-multibyte", kase{fn: "reverse", strs: []string{"a日"}}},
+	{"like-unescaped-meta:*", kase{fn: "like", strs: []string{"", "a*"}}},
+	{"like-unescaped-meta:*", kase{fn: "like", strs: []string{"x", "*"}}},
+	{"like-unescaped-meta:|", kase{fn: "like", strs: []string{"ab", "a|zzz"}}},
+	{"like-newline", kase{fn: "like", strs: []string{"a\nb", "a_b"}}},
+	{"like-newline", kase{fn: "like", strs: []string{"a\nb", "a%"}}},
+	{"regex-ci-lowercased-class", kase{fn: "~*", strs: []string{"a", `\S`}}},
+	{"regex-ci-lowercased-class", kase{fn: "~*", strs: []string{"a", `\pL`}}},
+	{"regex-ci-lowercased-class", kase{fn: "~*", strs: []string{"A", `[[:upper:]]`}}},
+	{"regex-ci-unicode-fold", kase{fn: "~*", strs: []string{"S", "ſ"}}},
+	{"substr-length-overflow", kase{fn: "substr", strs: []string{"abc"}, ints: []int64{1, math.MaxInt64}}},
+}
+
 var allFns = []string{"upper", "lower", "reverse", "len", "substr", "position", "replace", "like", "~", "~*"}
 
 func Run(c *core.Ctx) core.FinishOpts {
@@ -503,9 +531,26 @@ func Run(c *core.Ctx) core.FinishOpts {
 		selftest(r)
 	}
 
+	// ---- fixed probes: one deterministic witness per open finding (in-process here, through the
+	// binary in the CLI leg); a probe that no longer fails means the finding is stale ----
+	var cliSample []kase
+	if r.only == "" {
+		for i, p := range probes {
+			k := p.k
+			k.id = fmt.Sprintf("probe-%d", i)
+			if r.lookup(k) == nil {
+				continue
+			}
+			_, v := r.run(k)
+			if c.IsKnown(p.key) && !(v.status == "bad" && v.key == p.key) {
+				fmt.Printf("KNOWN-FINDING-STALE property=C12 key=%s probe %s no longer fails (verdict %s %s)\n", p.key, k.describe(), v.status, v.key)
+			}
+			cliSample = append(cliSample, k)
+		}
+	}
+
 	// ---- random leg ----
 	N := c.Pick(20000, 1000000)
-	var cliSample []kase
 	for _, fn := range allFns {
 		if fn == "substr" && r.fns["substr/1"] == nil || fn != "substr" && r.fns[fn] == nil {
 			continue
